@@ -985,6 +985,20 @@ def explore(fn, max_paths=200000, timeout_ms=60000, stop_on_cex=True, want_witne
             if stop_on_cex or sum(1 for c in res.cex if not c.get("known")) >= max_cex:
                 work.extend(p.pending)
                 break
+        except Exception as e:
+            # the real code (or the harness) raised something no obligation anticipated: a counterexample candidate,
+            # confirmed only if the native replay raises the same exception type
+            import traceback as _tb
+
+            res.stats.paths += 1
+            res.status = "violation"
+            where = _tb.extract_tb(e.__traceback__)[-1]
+            label = f"unexpected:{type(e).__name__}: {str(e)[:90]} @ {where.filename.split('/')[-1]}:{where.lineno}"
+            if sum(1 for c in res.cex if not c.get("known")) < max_cex:
+                res.cex.append({"label": label, "model": p.model() or {}, "extra": None})
+            if stop_on_cex or sum(1 for c in res.cex if not c.get("known")) >= max_cex:
+                work.extend(p.pending)
+                break
         except (Unsupported, Budget) as e:
             res.status = "inconclusive" if res.status == "ok" else res.status
             res.reason = f"{type(e).__name__}: {e}"
